@@ -1,1 +1,364 @@
-(* stub: to be written by group Questrade *)
+(* C18: src/peripheral/excel.rs (read_sheet_header, SheetReader),
+   src/peripheral/broker/questrade.rs (sheet_to_txs) and the pipeline of
+   src/peripheral/tx_export_convert_impl.rs (run_with_args: account
+   verification / filter, security filter, --no-fx, --usd-exchange-rate,
+   sort).
+   The input is the sheet as the `office` crate decoded it (xlsx decoding is
+   not modelled).  A Float cell carries the Decimal that Decimal::from_f64
+   returns for it and its f64 Display text, both computed by the real code
+   (f64 -> Decimal is not modelled).  Error cells are not modelled.
+   Definitions only. *)
+From Coq Require Import List NArith ZArith QArith Qcanon Bool.
+From ACB Require Import Base.Outcome Base.QcExtra Base.Fit Base.Arith Model.QText Model.FxTracker.
+Import ListNotations.
+Local Open Scope N_scope.
+
+Inductive cell :=
+| CEmpty
+| CStr (s : text)
+| CInt (z : Z)
+| CFloat (d : option Qc) (disp : text)
+| CBool (b : bool).
+
+Definition sheet := list (list cell).
+
+(* ---- read_sheet_header ---- *)
+(* [HeaderFiltered]: the code up to commit 749b190: non-string header cells
+   are dropped BEFORE the column indices are assigned;
+   [HeaderEnumerated]: the code after the fix: indices are assigned first. *)
+Inductive header_policy := HeaderFiltered | HeaderEnumerated.
+
+Definition cell_is (name : text) (c : cell) : bool :=
+  match c with CStr s => text_eqb s name | _ => false end.
+Definition is_str (c : cell) : bool := match c with CStr _ => true | _ => false end.
+
+(* HashMap::from_iter: a later column of the same name wins *)
+Fixpoint last_index (hdr : list cell) (name : text) : option nat :=
+  match hdr with
+  | [] => None
+  | c :: r =>
+      match last_index r name with
+      | Some j => Some (S j)
+      | None => if cell_is name c then Some O else None
+      end
+  end.
+
+Definition header_index (pol : header_policy) (hdr : list cell) (name : text) : option nat :=
+  match pol with
+  | HeaderEnumerated => last_index hdr name
+  | HeaderFiltered => last_index (filter is_str hdr) name
+  end.
+
+(* ---- SheetReader::get ---- *)
+Inductive lookup := NoCol | OutOfRow | Cell (c : cell).
+
+Definition get (pol : header_policy) (hdr row : list cell) (name : text) : lookup :=
+  match header_index pol hdr name with
+  | None => NoCol
+  | Some i => match nth_error row i with Some c => Cell c | None => OutOfRow end
+  end.
+
+(* the cells of a row the converter can look at: one per named header *)
+Record qrow := {
+  q_action : lookup; q_tdate : lookup; q_sdate : lookup; q_accttype : lookup;
+  q_acctnum : lookup; q_cur : lookup; q_net : lookup; q_symbol : lookup;
+  q_price : lookup; q_qty : lookup; q_comm : lookup
+}.
+
+Definition h_Action : text := [65;99;116;105;111;110].
+Definition h_TransactionDate : text := [84;114;97;110;115;97;99;116;105;111;110;32;68;97;116;101].
+Definition h_SettlementDate : text := [83;101;116;116;108;101;109;101;110;116;32;68;97;116;101].
+Definition h_AccountType : text := [65;99;99;111;117;110;116;32;84;121;112;101].
+Definition h_AccountNum : text := [65;99;99;111;117;110;116;32;35].
+Definition h_Currency : text := [67;117;114;114;101;110;99;121].
+Definition h_NetAmount : text := [78;101;116;32;65;109;111;117;110;116].
+Definition h_Symbol : text := [83;121;109;98;111;108].
+Definition h_Price : text := [80;114;105;99;101].
+Definition h_Quantity : text := [81;117;97;110;116;105;116;121].
+Definition h_Commission : text := [67;111;109;109;105;115;115;105;111;110].
+
+Definition used_headers : list text :=
+  [h_Action; h_TransactionDate; h_SettlementDate; h_AccountType; h_AccountNum; h_Currency;
+   h_NetAmount; h_Symbol; h_Price; h_Quantity; h_Commission].
+
+Definition read_row (pol : header_policy) (hdr row : list cell) : qrow :=
+  {| q_action := get pol hdr row h_Action; q_tdate := get pol hdr row h_TransactionDate;
+     q_sdate := get pol hdr row h_SettlementDate; q_accttype := get pol hdr row h_AccountType;
+     q_acctnum := get pol hdr row h_AccountNum; q_cur := get pol hdr row h_Currency;
+     q_net := get pol hdr row h_NetAmount; q_symbol := get pol hdr row h_Symbol;
+     q_price := get pol hdr row h_Price; q_qty := get pol hdr row h_Quantity;
+     q_comm := get pol hdr row h_Commission |}.
+
+(* the rows of the sheet below the header; None = "Sheet was empty" *)
+Definition sheet_rows (pol : header_policy) (sh : sheet) : option (list qrow) :=
+  match sh with
+  | [] => None
+  | hdr :: rows => Some (map (read_row pol hdr) rows)
+  end.
+
+(* ---- SheetReader::get_str / get_dec ---- *)
+Module Col.
+  Definition action : N := 1.  Definition tdate : N := 2.  Definition sdate : N := 3.
+  Definition accttype : N := 4. Definition acctnum : N := 5. Definition cur : N := 6.
+  Definition net : N := 7.     Definition symbol : N := 8. Definition price : N := 9.
+  Definition qty : N := 10.    Definition comm : N := 11.
+End Col.
+
+Definition t_true : text := [116;114;117;101].
+Definition t_false : text := [102;97;108;115;101].
+
+(* value, row error, or the index panic of `self.row.unwrap().get(col).unwrap()` *)
+Inductive got (T : Type) := GOk (v : T) | GErr (e : N) | GPanic.
+Arguments GOk {T} v. Arguments GErr {T} e. Arguments GPanic {T}.
+
+Definition get_str (col : N) (l : lookup) : got text :=
+  match l with
+  | NoCol => GErr (QErr.no_column col)
+  | OutOfRow => GPanic
+  | Cell c =>
+      GOk (match c with
+           | CStr s => s
+           | CBool b => if b then t_true else t_false
+           | CEmpty => []
+           | CInt z => text_of_Z z
+           | CFloat _ disp => disp
+           end)
+  end.
+
+(* Decimal::from_str on the modelled grammar: [+-]? digits with at most one
+   '.', at least one digit, scale <= 28 and mantissa <= 2^96-1.  Longer
+   numerals (which the crate rounds) and '_' separators are a model gap. *)
+Definition parse_dec_str (col : N) (s : text) : got Qc :=
+  let '(neg, body) := match s with
+                      | 45 :: r => (true, r)
+                      | 43 :: r => (false, r)
+                      | _ => (false, s)
+                      end in
+  if existsb (N.eqb 95) body then GErr (QErr.model_gap col)
+  else if negb (forallb (fun c => is_digit c || is_dot c) body) then GErr (QErr.bad_number col)
+  else if Nat.eqb (length (filter is_digit body)) 0 then GErr (QErr.bad_number col)
+  else if negb (Nat.leb (count_dots body) 1) then GErr (QErr.bad_number col)
+  else if Nat.leb (frac_len body) 28 && (Z.of_N (mantissa body) <=? max_mant)%Z then
+    GOk (if neg then (- plain_num_value body)%Qc else plain_num_value body)
+  else GErr (QErr.model_gap col).
+
+Definition get_dec (col : N) (l : lookup) : got Qc :=
+  match l with
+  | NoCol => GErr (QErr.no_column col)
+  | OutOfRow => GPanic
+  | Cell c =>
+      match c with
+      | CInt z => GOk (QcZ z)
+      | CFloat (Some d) _ => GOk d
+      | CFloat None _ => GErr (QErr.float_unconvertible col)
+      | CStr s => parse_dec_str col s
+      | CBool _ => GErr (QErr.bool_value col)
+      | CEmpty => GErr (QErr.empty_value col)
+      end
+  end.
+
+(* ---- convert_date_str: ^\d{4}-\d{2}-\d{2} then Date::parse ---- *)
+Definition is_leap (y : N) : bool :=
+  ((y mod 4 =? 0) && negb (y mod 100 =? 0)) || (y mod 400 =? 0).
+Definition days_in_month (y m : N) : N :=
+  match m with
+  | 2 => if is_leap y then 29 else 28
+  | 4 | 6 | 9 | 11 => 30
+  | _ => 31
+  end.
+
+Definition parse_date (s : text) : option date3 :=
+  match s with
+  | y1 :: y2 :: y3 :: y4 :: 45 :: m1 :: m2 :: 45 :: d1 :: d2 :: _ =>
+      if forallb is_digit [y1; y2; y3; y4; m1; m2; d1; d2] then
+        let y := digits_value [y1; y2; y3; y4] in
+        let m := digits_value [m1; m2] in
+        let d := digits_value [d1; d2] in
+        if (1 <=? m) && (m <=? 12) && (1 <=? d) && (d <=? days_in_month y m)
+        then Some (y, m, d) else None
+      else None
+  | _ => None
+  end.
+
+(* ---- action tables ---- *)
+Definition t_BUY : text := [66;85;89].
+Definition t_SELL : text := [83;69;76;76].
+Definition t_DIS : text := [68;73;83].
+Definition t_LIQ : text := [76;73;81].
+Definition t_FXT : text := [70;88;84].
+Definition t_DIV : text := [68;73;86].
+Definition allowed_actions : list text := [t_BUY; t_SELL; t_DIS; t_LIQ; t_FXT; t_DIV].
+Definition ignored_actions : list text :=
+  [[66;82;87]; [84;70;73]; [84;70;54]; [77;71;82]; [68;69;80]; [78;65;67]; [67;79;78];
+   [73;78;84]; [69;70;84]; [82;68;77]; []].
+Definition mem_text (s : text) (l : list text) : bool := existsb (text_eqb s) l.
+
+(* regex (?i)rrsp|tfsa|resp: ASCII case folding plus U+017F (long s) ~ s *)
+Definition fold_c (c : N) : N := if c =? 383 then 115 else lower_c c.
+Definition is_registered_type (account_type : text) : bool :=
+  let t := map fold_c account_type in
+  contains [114;114;115;112] t || contains [116;102;115;97] t || contains [114;101;115;112] t.
+
+(* symbol alias table: H038778 -> DLR.TO *)
+Definition t_H038778 : text := [72;48;51;56;55;55;56].
+Definition t_DLR_TO : text := [68;76;82;46;84;79].
+Definition alias_symbol (s : text) : text := if text_eqb s t_H038778 then t_DLR_TO else s.
+
+(* ---- sheet_to_txs ---- *)
+(* what one row does: trades pushed to `txs`, transactions added to the
+   FxTracker, the tracker's pending conversion row afterwards, and the error
+   of the row (both vectors are only appended to by the code) *)
+Record effect := {
+  e_trades : list btx; e_fx : list btx; e_adj : option fxt_row; e_err : option N
+}.
+Definition eff (t f : list btx) (a : option fxt_row) (e : option N) : res effect :=
+  Ok {| e_trades := t; e_fx := f; e_adj := a; e_err := e |}.
+
+Section Convert.
+  Variable A : arith.
+
+  Definition gbind {T} (g : got T) (adj : option fxt_row) (k : T -> res effect) : res effect :=
+    match g with
+    | GOk v => k v
+    | GErr e => eff [] [] adj (Some e)
+    | GPanic => Panic (PanicMissing 320)      (* excel.rs:39 *)
+    end.
+
+  Definition row_effect (n : N) (q : qrow) (adj : option fxt_row) : res effect :=
+    gbind (get_str Col.action (q_action q)) adj (fun raw =>
+    let act := upper raw in
+    if negb (mem_text act allowed_actions) && negb (mem_text act ignored_actions) then
+      eff [] [] adj (Some QErr.unrecognized_action)
+    else if mem_text act ignored_actions then eff [] [] adj None
+    else
+    gbind (get_str Col.tdate (q_tdate q)) adj (fun tdt =>
+    match parse_date tdt with
+    | None => eff [] [] adj (Some (QErr.bad_date Col.tdate))
+    | Some td =>
+    gbind (get_str Col.sdate (q_sdate q)) adj (fun sdt =>
+    match parse_date sdt with
+    | None => eff [] [] adj (Some (QErr.bad_date Col.sdate))
+    | Some sd =>
+    gbind (get_str Col.accttype (q_accttype q)) adj (fun atype =>
+    gbind (get_str Col.acctnum (q_acctnum q)) adj (fun anum =>
+    let acct := {| ac_type := atype; ac_num := anum |} in
+    let reg := is_registered_type atype in
+    if text_eqb act t_FXT then
+      gbind (get_str Col.cur (q_cur q)) adj (fun curs =>
+      gbind (get_dec Col.net (q_net q)) adj (fun amount =>
+      '(adj', fx, e) <- add_fxt_row A adj {| fr_row := n; fr_cur := currency_of curs; fr_reg := reg;
+                                            fr_td := td; fr_tdt := tdt; fr_amount := amount;
+                                            fr_acct := acct |} ;;
+      eff [] fx adj' e))
+    else
+    gbind (get_str Col.symbol (q_symbol q)) adj (fun sym =>
+    match sym with
+    | [] => eff [] [] adj (Some QErr.symbol_empty)
+    | _ =>
+    if text_eqb act t_DIV then
+      gbind (get_str Col.cur (q_cur q)) adj (fun curs =>
+      if text_eqb (upper curs) t_USD then
+        gbind (get_dec Col.net (q_net q)) adj (fun amount =>
+        match fx_tx t_USD td tdt amount reg n acct None with
+        | inl e => eff [] [] adj (Some e)
+        | inr t => eff [] [t] adj None
+        end)
+      else eff [] [] adj None)
+    else
+      let buy := text_eqb act t_BUY || text_eqb act t_DIS in
+      gbind (get_dec Col.price (q_price q)) adj (fun price =>
+      gbind (get_dec Col.qty (q_qty q)) adj (fun qty =>
+      gbind (get_dec Col.comm (q_comm q)) adj (fun comm =>
+      gbind (get_str Col.cur (q_cur q)) adj (fun curs =>
+      let t := {| b_sec := alias_symbol sym; b_td := td; b_sd := sd; b_tdt := tdt; b_sdt := sdt;
+                  b_buy := buy; b_price := price; b_shares := Qcabs qty; b_comm := Qcabs comm;
+                  b_cur := currency_of curs; b_rate := None; b_reg := reg; b_row := n;
+                  b_acct := acct; b_tb := None |} in
+      if cur_is_default (b_cur t) then eff [t] [] adj None
+      else
+        '(fx, e) <- add_implicit_fxt A t ;;
+        eff [t] fx adj e))))
+    end)))
+    end)
+    end)).
+
+  (* the rows below the header, numbered from 2: trades, FX transactions,
+     the pending conversion row at the end, row errors *)
+  Fixpoint convert_rows (n : N) (rows : list qrow) (adj : option fxt_row)
+    : res (list btx * list btx * option fxt_row * list (N * N)) :=
+    match rows with
+    | [] => Ok ([], [], adj, [])
+    | q :: r =>
+        e <- row_effect n q adj ;;
+        '(ts, fs, adj', errs) <- convert_rows (n + 1) r (e_adj e) ;;
+        Ok (e_trades e ++ ts, e_fx e ++ fs, adj',
+            match e_err e with Some c => [(n, c)] | None => [] end ++ errs)
+    end.
+
+  (* sheet_to_txs: all transactions (trades, then the FX transactions) and
+     the row errors (the "Unpaired FXT" error last) *)
+  Definition convert (rows : list qrow) : res (list btx * list (N * N)) :=
+    '(ts, fs, adj, errs) <- convert_rows 2 rows None ;;
+    Ok (ts ++ fs, errs ++ unpaired_error adj).
+End Convert.
+
+(* ---- run_with_args ---- *)
+Record opts := {
+  o_account : option (text -> bool);    (* --account: regex on "{type} {num}" *)
+  o_security : option (text -> bool);   (* --security: regex on the security *)
+  o_no_fx : bool;
+  o_no_sort : bool;
+  o_rate : option Qc                    (* --usd-exchange-rate *)
+}.
+
+Inductive run_result :=
+| RunFatal (errs : list (N * N))                 (* no output: header could not be read *)
+| RunAccounts                                    (* no output: several accounts, no --account *)
+| RunOut (rows : list btx) (errs : list (N * N)). (* CSV rows; exit status Err iff errs <> [] *)
+
+Fixpoint distinct_accounts (l : list account) : list account :=
+  match l with
+  | [] => []
+  | a :: r => if existsb (account_eqb a) r then distinct_accounts r else a :: distinct_accounts r
+  end.
+
+Definition is_fx_security (s : text) : bool := ends_with t_dotFX s.
+
+Definition apply_rate (r : option Qc) (t : btx) : btx :=
+  match r with
+  | Some x =>
+      if text_eqb (b_cur t) t_USD then
+        {| b_sec := b_sec t; b_td := b_td t; b_sd := b_sd t; b_tdt := b_tdt t; b_sdt := b_sdt t;
+           b_buy := b_buy t; b_price := b_price t; b_shares := b_shares t; b_comm := b_comm t;
+           b_cur := b_cur t; b_rate := Some x; b_reg := b_reg t; b_row := b_row t;
+           b_acct := b_acct t; b_tb := b_tb t |}
+      else t
+  | None => t
+  end.
+
+Definition post_process (o : opts) (txs : list btx) : option (list btx) :=
+  let filtered :=
+    match o_account o with
+    | Some f => Some (filter (fun t => f (account_str (b_acct t))) txs)
+    | None =>
+        if Nat.ltb 1 (length (distinct_accounts (map b_acct txs))) then None else Some txs
+    end in
+  match filtered with
+  | None => None
+  | Some t1 =>
+      let t2 := match o_security o with Some f => filter (fun t => f (b_sec t)) t1 | None => t1 end in
+      let t3 := if o_no_fx o then filter (fun t => negb (is_fx_security (b_sec t))) t2 else t2 in
+      let t4 := map (apply_rate (o_rate o)) t3 in
+      Some (if o_no_sort o then t4 else sort_btx t4)
+  end.
+
+Definition run (A : arith) (pol : header_policy) (o : opts) (sh : sheet) : res run_result :=
+  match sheet_rows pol sh with
+  | None => Ok (RunFatal [(1, 0)])
+  | Some rows =>
+      '(txs, errs) <- convert A rows ;;
+      match post_process o txs with
+      | None => Ok RunAccounts
+      | Some out => Ok (RunOut out errs)
+      end
+  end.
